@@ -373,10 +373,14 @@ fn reset(
     mut related_entities: ResMut<RelatedEntities>,
     clients: Query<Entity, With<ConnectedClient>>,
     mut buffered_events: ResMut<BufferedServerEvents>,
+    mut despawn_buffer: ResMut<DespawnBuffer>,
+    mut removal_buffer: ResMut<RemovalBuffer>,
 ) {
     *server_tick = Default::default();
     buffered_events.clear();
     related_entities.clear();
+    despawn_buffer.clear();
+    removal_buffer.clear();
     for entity in &clients {
         commands.entity(entity).despawn();
     }
